@@ -594,6 +594,19 @@ decreases p.tokens@.len() - p.token_index"""},
         {'name': 'undo-wrong-slot', 'item': 'Marker::undo',
          'pattern': r'p\.get_events\(\)\[self\.position\]', 'repl': 'p.get_events()[0]',
          'expect': r'C02\.marker\.touches-own-nodestart-only'},
+        # C02 / H-EV: events_ok (a non-zero parent link points to a LATER NodeStart)
+        {'name': 'precede-parent-self', 'item': 'CompleteMarker::precede',
+         'pattern': r'\*parent = m\.position', 'repl': '*parent = self.start',
+         'expect': r'C02\.events-ok-preserved'},
+        {'name': 'precede-parent-into-new-marker', 'item': 'CompleteMarker::precede',
+         'pattern': r'p\.get_events\(\)\[self\.start\]', 'repl': 'p.get_events()[m.position]',
+         'expect': r'C02\.events-ok-preserved'},
+        {'name': 'precede-no-trivia-parent-past-end', 'item': 'CompleteMarker::precede',
+         'pattern': r'\*parent = m\.position', 'repl': '*parent = m.position + 2',
+         'expect': r'C02\.events-ok-preserved'},
+        {'name': 'mark-nonzero-parent', 'item': 'MarkerEventContainer',
+         'pattern': r'NodeStart \{ kind, parent: 0 \}', 'repl': 'NodeStart { kind, parent: 1 }',
+         'expect': r'C02\.events-ok-preserved'},
         {'name': 'chunk-no-bump', 'item': 'parse_chunk',
          'pattern': r'p\.bump\(\); // Consume current token to avoid infinite loop', 'repl': '',
          'expect': r'C02\.parse_chunk\.terminates'},
